@@ -141,6 +141,9 @@ func (g *opGen) next(cur *model.Tree) sess.Op {
 			e := model.Random(r, loc.S, g.o, 1)
 			l.Entries = append(l.Entries, e)
 		}
+		for _, e := range l.Entries {
+			e.DropEmptyLists()
+		}
 		op.List = l
 		return op
 	}
@@ -175,6 +178,7 @@ func (g *opGen) next(cur *model.Tree) sess.Op {
 			}
 		}
 	}
-	op.Tree = p
+	// an XML document cannot mention a list without entries; keep payloads unambiguous
+	op.Tree = p.DropEmptyLists()
 	return op
 }
